@@ -190,8 +190,17 @@ def run_batch(check_id, tier, master, start, count, keep_digests=False, chunk_st
     out = {"n": 0, "stats": collections.Counter(), "states": set(), "grams": set(), "nontrivial": set(),
            "violations": [], "vcount": collections.Counter(), "samples": [], "digests": {}, "steps": 0,
            "harness_errors": []}
-    faulthandler.dump_traceback_later(300, exit=True)
+    try:
+        trace_file = open("watchdog_trace.txt", "w")      # in the private directory; read by the parent if this process dies
+    except OSError:
+        trace_file = sys.stderr
     for idx in range(start, start + count):
+        # a run that does not come back within 120 s (an endless loop inside C code cannot be interrupted otherwise)
+        # ends this process; the parent reports the dumped traceback as a harness error, never as a verdict
+        faulthandler.dump_traceback_later(120, exit=True, file=trace_file)
+        trace_file.seek(0)
+        trace_file.write("run index %d\n" % idx)
+        trace_file.flush()
         seed = derive_seed(master, check_id, tier, idx)
         rng = random.Random(seed)
         try:
@@ -304,6 +313,11 @@ def explore(check_id, tier, master, runs, workers, wall_cap, chunk=100, log=None
                     kind, val = conn.recv()
                 except EOFError:
                     kind, val = "err", "worker for runs %d..%d died" % (s_, s_ + c_)
+                    try:
+                        with open(os.path.join(base_dir(), "w.%d" % pid, "watchdog_trace.txt")) as tf:
+                            val += "\n" + tf.read()[-2500:]
+                    except OSError:
+                        pass
                 conn.close()
                 del live[conn]
                 os.waitpid(pid, 0)
